@@ -56,6 +56,10 @@ Definition sweep_mem16 : list (Z * stmt) :=
   flat_map (fun '(b, i, _, _) => flat_map (fun d => map (fun st => (16, st)) (carriers b i 0 d)) disps16) shapes16
   ++ flat_map (fun d => map (fun st => (16, st)) (carriers "" "" 0 d)) [0; 1; 4660; 32767; 65535].
 
+(* the same 16-bit register shapes in 32-bit mode (67h prefix; the absolute form is a 32-bit address there) *)
+Definition sweep_mem16_in32 : list (Z * stmt) :=
+  flat_map (fun '(b, i, _, _) => flat_map (fun d => map (fun st => (32, st)) (carriers b i 0 d)) disps16) shapes16.
+
 (* 32-bit addressing in both modes: all 261 shapes and the absolute form (BITS 32 only: in 16-bit mode [disp] is a 16-bit address) *)
 Definition sweep_mem32 : list (Z * stmt) :=
   flat_map (fun md => flat_map (fun '(b, i, sc, _, _, _) => flat_map (fun d => map (fun st => (md, st)) (carriers4 b i sc d)) disps32) shapes32) [16; 32]
@@ -64,6 +68,8 @@ Definition sweep_mem32 : list (Z * stmt) :=
 Definition bad {A} (f : A -> bool) (l : list A) : list A := filter (fun x => negb (f x)) l.
 
 Lemma sweep_mem16_ok : forallb ok013 sweep_mem16 = true.
+Proof. vm_compute. reflexivity. Qed.
+Lemma sweep_mem16_in32_ok : forallb ok013 sweep_mem16_in32 = true.
 Proof. vm_compute. reflexivity. Qed.
 Lemma sweep_mem32_ok : forallb ok013 sweep_mem32 = true.
 Proof. vm_compute. reflexivity. Qed.
